@@ -11,7 +11,6 @@ package c14
 import (
 	"fmt"
 	"os"
-	"sort"
 	"strconv"
 	"strings"
 	"testing"
@@ -381,47 +380,49 @@ func observeQuiet(v *srv, getIDs []string, candidates ...*model) (*observed, err
 	}
 }
 
-func opClass(op Op) string {
+// opLabels classifies a request for the label histogram (one label per patched property).
+func opLabels(op Op) []string {
 	switch op.K {
 	case "update":
 		var parts []string
 		if op.NewID != "" {
-			parts = append(parts, "id")
+			parts = append(parts, "update.id")
 		}
 		if op.Tmpl != "" {
-			parts = append(parts, "template")
+			parts = append(parts, "update.template")
 		}
 		if op.Script != "" {
-			parts = append(parts, "script")
+			parts = append(parts, "update.script")
 		}
 		if op.DBRPs != nil {
-			parts = append(parts, "dbrps")
+			parts = append(parts, "update.dbrps")
 		}
 		if op.Vars != nil {
-			parts = append(parts, "vars")
+			parts = append(parts, "update.vars")
 		}
 		if op.Status != "" {
-			parts = append(parts, "status")
+			parts = append(parts, "update.status")
 		}
 		if len(parts) == 0 {
-			return "update(nothing)"
+			return []string{"update(nothing)"}
 		}
-		return "update(" + strings.Join(parts, "+") + ")"
+		return parts
 	case "create":
 		if op.Tmpl != "" {
-			return "create(from-template)"
+			return []string{"create(from-template)"}
 		}
-		return "create"
+		return []string{"create"}
 	case "tupdate":
-		switch {
-		case op.NewID != "" && op.Script != "":
-			return "tupdate(id+script)"
-		case op.NewID != "":
-			return "tupdate(id)"
+		var parts []string
+		if op.NewID != "" {
+			parts = append(parts, "tupdate.id")
 		}
-		return "tupdate(script)"
+		if op.Script != "" {
+			parts = append(parts, "tupdate.script")
+		}
+		return parts
 	}
-	return op.K
+	return []string{op.K}
 }
 
 // sigKind maps an op to the word used in failure signatures.
@@ -462,6 +463,8 @@ type runner struct {
 	steps []string // trace for messages
 	// the non-trivial rule
 	apiOnly bool
+	seen    map[string]bool
+	quiet   bool // no labels for the requests and states of this history (prefix of a crash case)
 	// suspects: task ids named by an earlier request that is known to disturb the
 	// associations (only used to make the signature of a later symptom specific)
 	suspects map[string]string
@@ -470,6 +473,17 @@ type runner struct {
 	// request of a step is on the wire (the crash unit switches its snapshot hook)
 	aroundSend func(before bool)
 	accepted   bool // answer to the last request
+}
+
+// label records a class of the case once (the histogram counts cases, not steps).
+func (r *runner) label(l string) {
+	if r.seen == nil {
+		r.seen = map[string]bool{}
+	}
+	if !r.seen[l] {
+		r.seen[l] = true
+		r.cc.Label(l)
+	}
 }
 
 func (r *runner) trace() string { return strings.Join(r.steps, "\n  ") }
@@ -494,7 +508,9 @@ func (r *runner) step(i int, op Op) bool {
 	cc := r.cc
 	if op.K == "restart" {
 		r.steps = append(r.steps, fmt.Sprintf("%d: restart", i))
-		cc.Label("restart")
+		if !r.quiet {
+			r.label("restart")
+		}
 		r.v.close()
 		if !r.start() {
 			return false
@@ -552,7 +568,7 @@ func (r *runner) step(i int, op Op) bool {
 	r.accepted = accepted
 	r.noteSuspects(op, accepted)
 	if accepted {
-		cc.Label(opClass(op) + "/accepted")
+		r.labelOp(op, "/accepted")
 		if !applicable {
 			r.fail("accepted-impossible/"+kind, "request %s was answered %d although the catalogue cannot take it", op, status)
 			return false
@@ -571,12 +587,12 @@ func (r *runner) step(i int, op Op) bool {
 		r.m = post
 		r.noteNonTrivial(op, pre, post)
 	} else {
-		cc.Label(opClass(op) + "/rejected")
+		r.labelOp(op, "/rejected")
 		if d := pre.compare(o, !r.apiOnly); d != nil {
 			// The property allows for "enabled, start did not succeed": a request whose
 			// definition was stored but whose start failed is answered 5xx by the API.
 			if applicable && post.compare(o, !r.apiOnly) == nil && startFailed(op, post, o) {
-				cc.Label("start-failed: definition kept, answered 5xx")
+				r.label("start-failed: definition kept, answered 5xx")
 				post.adoptLoose(o)
 				r.m = post
 			} else {
@@ -597,7 +613,7 @@ func (r *runner) step(i int, op Op) bool {
 					t = r.m.tasks[id]
 				}
 				t.started()
-				r.cc.Label("rolled back template update reloaded a task")
+				r.label("rolled back template update reloaded a task")
 			}
 		}
 	}
@@ -606,20 +622,32 @@ func (r *runner) step(i int, op Op) bool {
 		return false
 	}
 	for _, id := range sortedKeys(r.m.tasks) {
+		if r.quiet {
+			break
+		}
 		t := r.m.tasks[id]
 		if t.Enabled {
 			switch t.runClass(o) {
 			case clsSyncFail:
-				cc.Label("state: enabled task whose start is refused")
+				r.label("state: enabled task whose start is refused")
 			case clsAsyncFail:
-				cc.Label("state: enabled batch task that died (no InfluxDB)")
+				r.label("state: enabled batch task that died (no InfluxDB)")
 			}
 		}
 		if t.Tmpl != "" && !t.Assoc {
-			cc.Label("state: orphaned task")
+			r.label("state: orphaned task")
 		}
 	}
 	return true
+}
+
+func (r *runner) labelOp(op Op, verdict string) {
+	if r.quiet {
+		return
+	}
+	for _, l := range opLabels(op) {
+		r.label(l + verdict)
+	}
 }
 
 func (r *runner) noteSuspects(op Op, accepted bool) {
@@ -659,7 +687,7 @@ func (r *runner) noteNonTrivial(op Op, pre, post *model) {
 		if t, ok := pre.tasks[op.ID]; ok && op.NewID != "" && op.NewID != op.ID && t.Enabled {
 			if nt, ok := post.tasks[op.NewID]; ok && nt.Enabled {
 				r.armed = true
-				r.cc.Label("rename of an enabled task accepted")
+				r.label("rename of an enabled task accepted")
 			}
 		}
 	case "tupdate":
@@ -672,10 +700,10 @@ func (r *runner) noteNonTrivial(op Op, pre, post *model) {
 				}
 			}
 		}
-		r.cc.Label(fmt.Sprintf("template update accepted with %d associated tasks", min(n, 3)))
+		r.label(fmt.Sprintf("template update accepted with %d associated tasks", min(n, 3)))
 		if en > 0 {
 			r.armed = true
-			r.cc.Label("template update of an enabled task accepted")
+			r.label("template update of an enabled task accepted")
 		}
 	}
 }
@@ -793,7 +821,7 @@ func run(c Case, cc *kit.Case) {
 		r.step(len(c.Ops), Op{K: "restart"})
 	}
 	n := len(r.m.tasks)
-	cc.Label(fmt.Sprintf("final catalogue: %d tasks", min(n, 4)))
+	r.label(fmt.Sprintf("final catalogue: %d tasks", min(n, 4)))
 }
 
 var assumptions = []string{
@@ -816,5 +844,3 @@ func TestReplayCatalogue(t *testing.T) {
 	r := kit.NewRec("C14", "Catalogue", rule, assumptions...)
 	kit.Replay(t, r, run)
 }
-
-var _ = sort.Strings
